@@ -1,5 +1,6 @@
 import Cppcms.C10.Lemmas
 import Cppcms.C10.SockLemmas
+import Cppcms.C10.SessLemmas
 /-!
 # C10 — property theorems
 
@@ -74,6 +75,52 @@ theorem transmit_segmentation_independent (cutReq cutRep : Bytes → Segs)
     (s : State) (now : Time) (h : Hdr) (data : Bytes) (hf : FrameWF h (data.take (h.get Gen.wSize))) :
     transmitSeg cutReq cutRep s now h data = some (transmit s now h data) :=
   C10.transmit_segmentation_independent cutReq cutRep h1 h2 s now h data hf
+
+/-! ### session opcodes (network session storage behind the same server) -/
+
+/-- **The session codec is exact.**  For a 32-byte session id, a value that fits the frame and an `int64_t`
+deadline: `tcp_storage::save` makes the server's storage execute exactly `save(sid, deadline, value)` (reply
+`done`); `tcp_storage::remove` exactly `remove(sid)`; `tcp_storage::load` leaves the storage alone and returns
+exactly what the storage's `load` returns, except that a record with a negative deadline is reported absent. -/
+theorem session_wire_exact (st : SessStore) (now : Time) (sid : Bytes) (hs : sid.length = Gen.sessSidLen) :
+    (∀ (to : Time) (v : Bytes), v.length + Gen.sessSidLen < 4294967296 →
+        -9223372036854775808 ≤ to ∧ to < 9223372036854775808 →
+        sessTransmit st now (reqSessSave sid to v) = (sessSave st now sid to v, replyOp Gen.opDone, [])) ∧
+    (sessTransmit st now (reqSessRemove sid)).1 = sessRemove st now sid ∧
+    ((∀ t v, sessLoad st now sid = some (t, v) → v.length < 4294967296 ∧ -9223372036854775808 ≤ t ∧ t < 9223372036854775808) →
+      (sessTransmit st now (reqSessLoad sid)).1 = st ∧
+      cliDecodeSessLoad (sessTransmit st now (reqSessLoad sid)).2.1 (sessTransmit st now (reqSessLoad sid)).2.2 =
+        (match sessLoad st now sid with
+         | none => none
+         | some (t, v) => if t < 0 then none else some (t, v))) :=
+  ⟨fun to v hv hd => reqSessSave_exact st now sid to v hs hv hd, reqSessRemove_exact st now sid hs,
+    fun hrec => reqSessLoad_exact st now sid hs hrec⟩
+
+/-- **A session saved over the wire is loaded back over the wire** — same deadline, same value — at every
+clock value up to its deadline, whatever else the storage holds (`session_memory_storage` with its
+`short_gc`); after a remove over the wire it is absent. -/
+theorem session_save_load_roundtrip (st : SessStore) (now now' : Time) (sid : Bytes) (to : Time) (v : Bytes)
+    (hs : sid.length = Gen.sessSidLen) (hv : v.length + Gen.sessSidLen < 4294967296)
+    (hd : -9223372036854775808 ≤ to ∧ to < 9223372036854775808) (h0 : ¬ to < 0) (h1 : ¬ to < now) (h2 : ¬ to < now') :
+    let st1 := (sessTransmit st now (reqSessSave sid to v)).1
+    cliDecodeSessLoad (sessTransmit st1 now' (reqSessLoad sid)).2.1 (sessTransmit st1 now' (reqSessLoad sid)).2.2 = some (to, v) ∧
+    (let st2 := (sessTransmit st1 now' (reqSessRemove sid)).1
+     cliDecodeSessLoad (sessTransmit st2 now' (reqSessLoad sid)).2.1 (sessTransmit st2 now' (reqSessLoad sid)).2.2 = none) := by
+  intro st1
+  have e1 : st1 = sessSave st now sid to v := by
+    show (sessTransmit st now (reqSessSave sid to v)).1 = _
+    rw [reqSessSave_exact st now sid to v hs hv hd]
+  have hl : sessLoad st1 now' sid = some (to, v) := by rw [e1, sessLoad_save st now now' sid to v h1]; simp [h2]
+  constructor
+  · have := (reqSessLoad_exact st1 now' sid hs (by
+      intro t x hx; rw [hl] at hx; cases hx
+      exact ⟨by have : Gen.sessSidLen = 32 := rfl; omega, hd⟩)).2
+    rw [this, hl]; simp [h0]
+  · intro st2
+    have e2 : st2 = sessRemove st1 now' sid := reqSessRemove_exact st1 now' sid hs
+    have hl2 : sessLoad st2 now' sid = none := by rw [e2]; exact sessLoad_remove st1 now' now' sid
+    have := (reqSessLoad_exact st2 now' sid hs (by intro t x hx; rw [hl2] at hx; cases hx)).2
+    rw [this, hl2]
 
 /-- full statement (false, see the counterexamples): for **all** contents the server performs the
 store the client asked for -/
@@ -367,6 +414,17 @@ example : (step (run (Cluster.init [0, 0] [some 5, none, some 0]) (h₁ ++ [.ris
 -- an L1 entry and the server entry it copies (`l1_inv`), same generation (`gen_unique`)
 example : (labs (run (Cluster.init [0, 0] [some 5, none, some 0]) (h₁.take 3)) 0 k₁).map (·.gen) = some 0 ∧
     (sabs (run (Cluster.init [0, 0] [some 5, none, some 0]) (h₁.take 1)) (shard 2 k₁) k₁).map (·.gen) = some 0 := by decide
+-- session opcodes: hypotheses of `session_save_load_roundtrip`, and the negative-deadline quirk (saved, never loaded)
+example :
+    let sid : Bytes := List.replicate 32 97
+    let st1 := (sessTransmit [] 1000 (reqSessSave sid 5000 [1, 0, 2])).1
+    cliDecodeSessLoad (sessTransmit st1 4000 (reqSessLoad sid)).2.1 (sessTransmit st1 4000 (reqSessLoad sid)).2.2 = some (5000, [1, 0, 2]) ∧
+    cliDecodeSessLoad (sessTransmit st1 5001 (reqSessLoad sid)).2.1 (sessTransmit st1 5001 (reqSessLoad sid)).2.2 = none := by decide
+example :
+    let sid : Bytes := List.replicate 32 97
+    let st1 := (sessTransmit [] (-10) (reqSessSave sid (-5) [1])).1
+    sessLoad st1 (-10) sid = some (-5, [1]) ∧
+    cliDecodeSessLoad (sessTransmit st1 (-10) (reqSessLoad sid)).2.1 (sessTransmit st1 (-10) (reqSessLoad sid)).2.2 = none := by decide
 -- generations keep growing across a clear issued by another node: the entry stored after it gets a fresh stamp,
 -- so the L1 copy made before the clear (generation 0) is not confirmed
 example :
